@@ -3,8 +3,8 @@
      L <hex text> <s1,s2,...>     -> lines of the start offsets (hex numbers separated by blanks)
      S <hex text> <start> <end>   -> pest_span_to_position            "index line column a b" (hex)
      A <hex text> <start> <end>   -> position_from_ast_span of the span
-     E <hex text> <pest offset>   -> convert_pest_error               "index line column a b|<kf_end><kf_start>|<the same five numbers of the repaired model>"
-     X <hex text>                 -> convert_pest_error at every character-boundary offset: "p index line column a b,..." | repaired model
+     E <hex text> <pest offset>   -> convert_pest_error               "index line column a b"
+     X <hex text>                 -> convert_pest_error at every character-boundary offset: "p index line column a b,..."
      W <len> <c1,c2,...>          -> events_wfb on the queue (2*pos = Start, 2*pos+1 = End): wf | bad      *)
 open Pos_model
 let rec pos_of_int n = if n = 1 then XH else if n land 1 = 1 then XI (pos_of_int (n lsr 1)) else XO (pos_of_int (n lsr 1))
@@ -28,12 +28,8 @@ let () =
       | "L" :: h :: starts :: _ -> print_endline (string_of_codes (lines_render (bytes_of_hex h) (nums starts)))
       | "S" :: h :: s :: e :: _ -> print_endline (string_of_codes (span_position_render (bytes_of_hex h) (n_of_string s) (n_of_string e)))
       | "A" :: h :: s :: e :: _ -> print_endline (string_of_codes (ast_position_render (bytes_of_hex h) (n_of_string s) (n_of_string e)))
-      | "E" :: h :: i :: _ ->
-        let bs = bytes_of_hex h and i = n_of_string i in
-        print_endline (string_of_codes (err_render bs i) ^ "|" ^ string_of_codes (err_render_fixed bs i))
-      | "X" :: h :: _ ->
-        let bs = bytes_of_hex h in
-        print_endline (string_of_codes (err_sweep_render bs) ^ "|" ^ string_of_codes (err_sweep_fixed_render bs))
+      | "E" :: h :: i :: _ -> print_endline (string_of_codes (err_render (bytes_of_hex h) (n_of_string i)))
+      | "X" :: h :: _ -> print_endline (string_of_codes (err_sweep_render (bytes_of_hex h)))
       | "W" :: len :: codes :: _ -> print_endline (string_of_codes (events_wf_render (n_of_string len) (nums codes)))
       | _ -> print_endline "?"
     done
